@@ -118,12 +118,13 @@ func c17OpsKS(ks, other univ.KeySet, thorough bool) []c17Op {
 		}}
 	}
 	child := func(el, ii int, nonce []byte) c17Op {
-		return c17Op{fmt.Sprintf("child(aes%d,integ%d,nonce%d)", el*8, ii, len(nonce)), func(sa *security.IKESAKey) string {
+		return c17Op{fmt.Sprintf("child(aes%d,integ%d,nonce%d#%x)", el*8, ii, len(nonce), engine.Hash64(nonce)&0xff), func(sa *security.IKESAKey) string {
 			ch := &security.ChildSAKey{EncrKInfo: encr.StrToKType(univ.EncrName(el))}
 			if ii >= 0 {
 				ch.IntegKInfo = integ.StrToKType(univ.IntegName(ref.Integs[ii]))
 			}
-			if err := ch.GenerateKeyForChildSA(sa, nonce); err != nil {
+			// the nonces arrive in the caller's work buffer (one per length, refilled for every exchange)
+			if err := ch.GenerateKeyForChildSA(sa, inCallerBuffer(nonce)); err != nil {
 				return "error"
 			}
 			return fmt.Sprintf("%x|%x|%x|%x", ch.InitiatorToResponderEncryptionKey, ch.InitiatorToResponderIntegrityKey, ch.ResponderToInitiatorEncryptionKey, ch.ResponderToInitiatorIntegrityKey)
@@ -161,7 +162,15 @@ func c17OpsKS(ks, other univ.KeySet, thorough bool) []c17Op {
 		unprotect("unprotect(tampered ciphertext)", flip(gI, 28+4+16+3), false, false), unprotect("unprotect(tampered icv)", flip(gR, len(gR)-1), true, false),
 		unprotect("unprotect(truncated)", gI[:len(gI)-7], false, false), unprotect("unprotect(short sk body)", append(append([]byte(nil), gI[:30]...), 0, 9, 1, 2, 3, 4, 5), false, false),
 		unprotect("unprotect(reflected)", gI, true, false), unprotect("unprotect(cross-key)", mk(other, 0, true, 10), false, false),
-		child(16, 1, univ.Pat(32, 5)), child(32, -1, nil),
+		child(16, 1, univ.Pat(32, 5)), child(32, -1, nil), child(16, 1, univ.Pat(32, 6)),
+		c17Op{"caller computes prf(SK_d, x) on the exported Prf_d object", func(sa *security.IKESAKey) string {
+			if sa.Prf_d != nil {
+				sa.Prf_d.Reset()
+				sa.Prf_d.Write(univ.Pat(40, 77))
+				sa.Prf_d.Sum(nil)
+			}
+			return "ok"
+		}},
 		protectFail(0, true, 0), protectFail(0, true, 1), protectFail(1, false, 1), protect(3, true, 7), protect(3, false, 8),
 		unprotect("unprotect(authentic, impossible pad length)", authBad(0, true), false, false), unprotect("unprotect(authentic, inner chain does not parse)", authBad(1, true), false, true),
 		unprotect("unprotect(authentic, ciphertext not block aligned)", authBad(2, false), true, false), unprotect("unprotect(authentic, critical unsupported payload inside)", authBad(3, false), true, false),
